@@ -51,7 +51,7 @@ SPEC_BUILTINS = {
     "suffixof", "contains", "strlen", "int_str", "str_to_int", "truthy", "py_eq", "py_str",
     "clsid", "clsof", "isinst", "uf", "exact_class", "qn_str", "qn_uri", "map_dom_eq",
     "const_set", "const_map_keys", "table_get", "table_has", "field_array", "is_other",
-    "seq_len", "seq_nth", "seq_empty", "seq_unit", "seq_concat", "flt_of_int", "same", "hash_str", "tbl", "canon_in", "vs_has", "vs_n", "vs_in", "vs_wf", "vs_first", "vs_rep", "ck", "qm_has", "qm_get", "qm_key", "pair", "hash_of", "vs_add", "vs_empty", "seq_has", "attr_set", "canon_set", "rkey", "rec_keys", "set_has", "uri_in", "recs_with_id", "recs_of_class", "allocated", "table_key", "seq_member_index_lemma", "is_formal", "os_has", "os_n", "os_rep", "entry",
+    "seq_len", "seq_nth", "seq_empty", "seq_unit", "seq_concat", "flt_of_int", "same", "hash_str", "tbl", "canon_in", "vs_has", "vs_n", "vs_in", "vs_wf", "vs_first", "vs_rep", "ck", "qm_has", "qm_get", "qm_key", "pair", "hash_of", "vs_add", "vs_empty", "seq_has", "attr_set", "canon_set", "rkey", "rec_keys", "set_has", "uri_in", "recs_with_id", "recs_of_class", "allocated", "table_key", "seq_member_index_lemma", "is_formal", "fresh", "seq_snoc_lemma", "os_has", "os_n", "os_rep", "entry",
 }
 
 
@@ -369,6 +369,23 @@ class Exec(Sem):
             if ci is not None:
                 fi = ci.lookup(attr)
                 if fi is not None:
+                    # dynamic dispatch: subclasses may override the method/property
+                    impls = {}
+                    for sub in self.repo.subclasses(cls):
+                        sfi = sub.lookup(attr)
+                        if sfi is not None:
+                            impls.setdefault(sfi.qualname, (sfi, []))[1].append(sub.name)
+                    if len(impls) > 1 and not st.spec:
+                        alts = []
+                        for q_, (sfi, subs) in sorted(impls.items()):
+                            cond = OR(*[self.cls_exact(o.t, sname) for sname in subs])
+                            alts.append((cond, sfi, SV(o.t, T.Ref(sfi.cls.name)) if sfi.cls.is_subclass_of(cls) else o))
+                        if fi.is_property:
+                            for cond, sfi, ov in alts:
+                                if self.feasible(st, cond):
+                                    self.call_func(sfi, [ov], {}, st.assume(cond).step("d"), k, ctl, node)
+                            return None
+                        return k(st, PyV("dynmethod", alts))
                     if fi.is_property:
                         return self.call_func(fi, [o], {}, st, k, ctl, node)
                     return k(st, PyV("bound", fi, o))
@@ -884,6 +901,11 @@ class Exec(Sem):
                 return self.call_func(f.data, [f.extra] + list(args), kwargs, st, k, ctl, node)
             if kind == "class":
                 return self.construct(f.data, args, kwargs, st, k, ctl, node)
+            if kind == "dynmethod":
+                for cond, sfi, ov in f.data:
+                    if self.feasible(st, cond):
+                        self.call_func(sfi, [ov] + list(args), kwargs, st.assume(cond).step("d"), k, ctl, node)
+                return None
             if kind == "classchoice":
                 from .calls import construct_choice
                 return construct_choice(self, f.data, args, kwargs, st, k, ctl, node)
